@@ -11,6 +11,8 @@ use crate::p2::shape as s2;
 use crate::p3::shape::SupportMap as SM3;
 use crate::p2::shape::SupportMap as SM2;
 use crate::p3::query::gjk::{ConstantOrigin, ConstantPoint, DilatedShape};
+#[path = "c10_poly.rs"]
+mod poly;
 
 fn sup3<S: SM3 + ?Sized>(s: &S, mode: &str, a: &mut Args) -> String {
     match mode {
@@ -110,6 +112,7 @@ fn exec_feature(func: &str, a: &mut Args) -> Option<String> {
 
 pub fn exec(func: &str, a: &mut Args) -> String {
     if let Some(s) = exec_feature(func, a) { return s; }
+    if let Some(s) = poly::exec(func, a) { return s; }
     let (shape, mode) = match func.rfind('_') { Some(i) => (&func[..i], &func[i + 1..]), None => (func, "") };
     match shape {
         // ---- 3-D
@@ -381,6 +384,14 @@ pub fn gen(r: &mut Rng, thorough: bool) -> Vec<(String, String)> {
             v.push(("triangle_local".into(), format!("{} {} {} {}", d3::hp(&ta), d3::hp(&tb), d3::hp(&tc), d3::hv(&d))));
             v.push(("triangle_local".into(), format!("{} {} {} {}", d3::hp(&tc), d3::hp(&ta), d3::hp(&tb), d3::hv(&d))));
             v.push(("triangle_edge".into(), format!("{} {} {} {}", d3::hp(&tb), d3::hp(&tc), d3::hp(&ta), d3::hv(&d))));
+            // all six vertex orders of the tied triangle (two- and three-way ties: the branch order decides), plain and rounded
+            let tv = [ta, tb, tc];
+            for pm in [[0usize, 1, 2], [0, 2, 1], [1, 0, 2], [1, 2, 0], [2, 0, 1], [2, 1, 0]] {
+                let ts = format!("{} {} {}", d3::hp(&tv[pm[0]]), d3::hp(&tv[pm[1]]), d3::hp(&tv[pm[2]]));
+                v.push(("triangle_local".into(), format!("{} {}", ts, d3::hv(&d))));
+                v.push(("triangle_edge".into(), format!("{} {}", ts, d3::hv(&d))));
+                if pm[0] == it % 3 { v.push(("roundtriangle_local".into(), format!("{} {} {}", ts, hx(r1), d3::hv(&d)))); }
+            }
             v.push(("cloud_id".into(), format!("{} {}", hpts3(&[tc, ta, b, tb]), d3::hv(&d))));
             let d2v = gen_dir2(r, true);
             let p2 = d2::Vector::new(-d2v.y, d2v.x) * *r.pick(&[0.5, 1.0, -1.0, 2.0]);
@@ -448,6 +459,8 @@ pub fn gen(r: &mut Rng, thorough: bool) -> Vec<(String, String)> {
                 }
             }
         }
+        // ---- ConvexPolyhedron feature maps, CSO points (c10_poly.rs)
+        poly::gen(r, it, lat, &mut v);
     }
     v
 }
